@@ -8,7 +8,7 @@
    about ONE evaluation of the condition / body / post step are proved by unfolding + rewriting the checked reads into their
    values + case analysis, then the components are made opaque and the induction on fuel uses those facts only. *)
 From Coq Require Import List ZArith Lia Bool Arith.
-From V Require Import Lib.Utf8 Proofs.Utf8Facts Model.Strs Proofs.StrsBasic Proofs.StrsRunes Proofs.BitsBasic.
+From V Require Import Lib.Utf8 Proofs.Utf8Facts Model.Strs Proofs.StrsBasic Proofs.StrsRunes.
 From V Require Import Lib.GoSem Lib.GoSemStd Lib.GoSemStr Proofs.GoSemFacts Gen.StrsCode.
 Import ListNotations GoNotations.
 Local Open Scope Z_scope.
@@ -366,3 +366,91 @@ Qed.
 Corollary code_Mask str msk start end_ : mask_no_wrap str start end_ ->
   g_Mask (S (length str)) str msk start end_ = to_M (mask str msk start end_).
 Proof. intros H. rewrite code_Mask_fuel by exact H. reflexivity. Qed.
+
+(* ================================================================ Rev *)
+Lemma zupd_length (l : list Z) i x : length (GoSem.upd l i x) = length l.
+Proof. revert i; induction l as [|a l IH]; intros [|i]; cbn [GoSem.upd length]; auto. Qed.
+Lemma nth_zupd (l : list Z) i j x : (i < length l)%nat -> nth j (GoSem.upd l i x) 0 = if Nat.eqb j i then x else nth j l 0.
+Proof.
+  revert i j; induction l as [|a l IH]; intros [|i] [|j] H; cbn [GoSem.upd nth length Nat.eqb] in *; try lia; auto.
+  apply IH. lia.
+Qed.
+Lemma m_set_nat l i x : (i < length l)%nat -> m_set l (Z.of_nat i) x = Ret (GoSem.upd l i x).
+Proof.
+  intros H. unfold m_set, set_at. replace (0 <=? Z.of_nat i) with true by (symmetry; apply Z.leb_le; lia).
+  replace (Z.of_nat i <? Z.of_nat (length l)) with true by (symmetry; apply Z.ltb_lt; lia). rewrite Nat2Z.id. reflexivity.
+Qed.
+
+(* the state of the two-index swapping loop after k iterations over the rune list l (n = length l) *)
+Definition rev_inv (l : list Z) (k : nat) (cur : list Z) : Prop :=
+  length cur = length l /\ (k <= length l)%nat /\
+  forall idx, (idx < length l)%nat ->
+    nth idx cur 0 = if ((idx <? k) || (length l - 1 - k <? idx))%nat then nth (length l - 1 - idx) l 0 else nth idx l 0.
+
+Lemma rev_inv_done l k cur : rev_inv l k cur -> (length l - 1 - k <= k)%nat -> cur = rev l.
+Proof.
+  intros (Hlen & Hk & Hp) Hd. apply (nth_ext _ _ 0 0); [rewrite rev_length; exact Hlen|].
+  intros idx Hi. rewrite Hlen in Hi. rewrite (Hp idx Hi), rev_nth by exact Hi.
+  replace (length l - S idx)%nat with (length l - 1 - idx)%nat by lia.
+  destruct ((idx <? k) || (length l - 1 - k <? idx))%nat eqn:E; [reflexivity|].
+  apply orb_false_iff in E. destruct E as [E1 E2]. apply Nat.ltb_ge in E1, E2. f_equal. lia.
+Qed.
+
+Lemma rev_inv_step l k cur : rev_inv l k cur -> (k < length l - 1 - k)%nat ->
+  rev_inv l (S k) (GoSem.upd (GoSem.upd cur k (nth (length l - 1 - k) cur 0)) (length l - 1 - k) (nth k cur 0)).
+Proof.
+  intros (Hlen & Hk & Hp) Hlt. repeat split.
+  - rewrite !zupd_length. exact Hlen.
+  - lia.
+  - intros idx Hi. rewrite nth_zupd by (rewrite zupd_length; lia). rewrite nth_zupd by lia.
+    rewrite (Hp k) by lia. rewrite (Hp (length l - 1 - k)%nat) by lia. rewrite (Hp idx) by exact Hi.
+    replace ((k <? k) || (length l - 1 - k <? k))%nat with false
+      by (symmetry; apply orb_false_iff; split; apply Nat.ltb_ge; lia).
+    replace ((length l - 1 - k <? k) || (length l - 1 - k <? length l - 1 - k))%nat with false
+      by (symmetry; apply orb_false_iff; split; apply Nat.ltb_ge; lia).
+    destruct (Nat.eqb_spec idx (length l - 1 - k)) as [->|N1].
+    + replace ((length l - 1 - k <? S k) || (length l - 1 - S k <? length l - 1 - k))%nat with true
+        by (symmetry; apply orb_true_iff; right; apply Nat.ltb_lt; lia).
+      f_equal. lia.
+    + destruct (Nat.eqb_spec idx k) as [->|N2].
+      * replace ((k <? S k) || (length l - 1 - S k <? k))%nat with true
+          by (symmetry; apply orb_true_iff; left; apply Nat.ltb_lt; lia).
+        reflexivity.
+      * replace ((idx <? S k) || (length l - 1 - S k <? idx))%nat with ((idx <? k) || (length l - 1 - k <? idx))%nat; [reflexivity|].
+        destruct (Nat.ltb_spec idx k), (Nat.ltb_spec (length l - 1 - k) idx), (Nat.ltb_spec idx (S k)),
+          (Nat.ltb_spec (length l - 1 - S k) idx); cbn [orb]; try reflexivity; lia.
+Qed.
+
+Lemma runes_length_le s : (length (runes s) <= length s)%nat.
+Proof. rewrite runes_chunks, map_length. apply chunks_length. Qed.
+
+(* enough fuel: more than the number of runes *)
+Theorem code_Rev_fuel fuel s : (length (runes s) < fuel)%nat -> g_Rev fuel s = Ret (rev_str s).
+Proof.
+  intros Hf. unfold g_Rev, rev_str, std_runes. cbv zeta. set (l := runes s) in *. open_loop.
+  assert (HK : forall cur i j, K (Datatypes.inl (cur, i, j)) = Ret (concat (map encode_rune cur))) by reflexivity.
+  destruct (while_rule C B P
+    (fun m st => exists k cur, st = (cur, Z.of_nat k, GoSem.zlen l - 1 - Z.of_nat k) /\ rev_inv l k cur /\ m = (length l - k)%nat)
+    (fun out => exists i j, out = Datatypes.inl (rev l, i, j))) with (fuel := fuel) (m := length l) (s := (l, 0, GoSem.zlen l - 1))
+    as (out & Hw & (i & j & ->)).
+  - intros m st (k & cur & -> & Hinv & ->). unfold C, B, P. rewrite zlen_eq.
+    destruct (Z.of_nat k <? Z.of_nat (length l) - 1 - Z.of_nat k) eqn:E; zbools.
+    + pose proof Hinv as (Hlen & Hk & _).
+      replace (Z.of_nat (length l) - 1 - Z.of_nat k) with (Z.of_nat (length l - 1 - k)) by lia.
+      rewrite !m_get_nat by lia. cbn [bind]. rewrite m_set_nat by lia. cbn [bind].
+      rewrite m_set_nat by (rewrite zupd_length; lia). cbn [bind].
+      exists (length l - S k)%nat. split; [lia|].
+      exists (S k), (GoSem.upd (GoSem.upd cur k (nth (length l - 1 - k) cur 0)) (length l - 1 - k) (nth k cur 0)).
+      split; [|split; [apply rev_inv_step; [exact Hinv|lia]|reflexivity]].
+      f_equal; [f_equal|]; lia.
+    + exists (Z.of_nat k), (Z.of_nat (length l) - 1 - Z.of_nat k). do 3 f_equal. apply (rev_inv_done l k); [exact Hinv|lia].
+  - exists 0%nat, l. split; [f_equal; lia|]. split; [|lia]. split; [reflexivity|]. split; [lia|]. intros idx Hi.
+    replace ((idx <? 0) || (length l - 1 - 0 <? idx))%nat with false; [reflexivity|].
+    symmetry. apply orb_false_iff. split; apply Nat.ltb_ge; lia.
+  - exact Hf.
+  - rewrite Hw. cbn [bind]. apply HK.
+Qed.
+
+(* the fuel the other loops of the area run on suffices *)
+Corollary code_Rev s : g_Rev (S (length s)) s = Ret (rev_str s).
+Proof. apply code_Rev_fuel. pose proof (runes_length_le s). lia. Qed.
